@@ -35,13 +35,15 @@ def close(a, b, exact, tol=TOL, scale=1.0):
     return abs(Fr(float(a)) - Fr(b)) <= Fr(tol) * max(1, abs(Fr(b)), Fr(scale))
 
 
-def check_point(name, method, nd, grids, table, pt, hs, der_row, what='returned'):
+def check_point(name, method, nd, grids, table, pt, hs, der_row, what='returned', kw=None):
     """Is der_row the derivative, at pt, of the values the interpolator returns?  5-point central
     differences of fresh objects; returns (ok, msg)."""
     tabscale = float(np.max(np.abs(table))) if table.size else 1.0
 
+    kw = kw or {}
+
     def value(p):
-        it2 = InterpND(method=name, points=tuple(grids), values=table, extrapolate=True)
+        it2 = InterpND(method=name, points=tuple(grids), values=table, extrapolate=True, **kw)
         return Fr(float(np.ravel(it2.interpolate(p.reshape(1, nd)))[0]))
     for i in range(nd):
         h = hs[i]
@@ -84,8 +86,17 @@ def handle_grad(c):
     pts = np.array([[float(fr(v)) for v in pt] for pt in c['pts']])
     hs = [float(fr(h)) for h in c['h']]
     name = c['method'] if c['variant'] == 'general' else '%dD-%s' % (nd, c['method'])
-    kind = 'grad/%s/%dD%s' % (name, nd, '/history' if c.get('history') else '')
-    it = InterpND(method=name, points=tuple(grids), values=table, extrapolate=True)
+    kw = {'delta_x': float(fr(c['delta_x']))} if c.get('delta_x') else {}     # akima smoothing option
+    kind = 'grad/%s/%dD%s%s' % (name, nd, '/history' if c.get('history') else '', '/delta_x' if kw else '')
+    try:
+        it = InterpND(method=name, points=tuple(grids), values=table, extrapolate=True, **kw)
+        if not c.get('history'):
+            it.interpolate(pts.copy(), compute_derivative=True)
+    except Exception as e:   # noqa
+        return {'res': '__none__', 'ok': False, 'sig': 'd_dx-raises', 'kind': kind,
+                'msg': '%s (%s) on a %d-D table: interpolate(compute_derivative=True) raised %s: %s' % (
+                    name, kw, nd, type(e).__name__, str(e)[:120])}
+    it = InterpND(method=name, points=tuple(grids), values=table, extrapolate=True, **kw)
     if c.get('history'):
         # one interpolant object: out-of-table single-point calls first, then one call per query point
         for pre in c['pre']:
@@ -102,10 +113,11 @@ def handle_grad(c):
     res = [[q(vals[j])] + [q(d) for d in der[j]] for j in range(len(pts))]
     ok, msg = True, ''
     for j in range(len(pts)):
-        ok, msg = check_point(name, c['method'], nd, grids, table, pts[j], hs, der[j])
+        ok, msg = check_point(name, c['method'], nd, grids, table, pts[j], hs, der[j],
+                              'returned (options %s)' % kw if kw else 'returned', kw)
         if not ok:
             break
-    model = not (c['method'] == 'akima' and nd > 1) and c['variant'] == 'general'
+    model = not (c['method'] == 'akima' and (nd > 1 or kw)) and c['variant'] == 'general'
     return {'res': res if model else '__none__', 'ok': ok, 'msg': msg, 'sig': 'd_dx', 'kind': kind}
 
 
